@@ -1,0 +1,215 @@
+//go:build verif
+// +build verif
+
+// Verification hook for property C11 (build tag verif, add-only).
+//
+//   * VerifC11Table     dump of the live jump table NewEVMInterpreter builds for a
+//                       block height, with the names of the execute / memorySize /
+//                       dynamicGas functions and behavioural probes of the closures;
+//   * VerifC11DynGas    runs ONE dynamicGas function of the live table on a given
+//                       stack / memory length / gas, without executing the opcode
+//                       (so that a huge memory expansion is priced but not allocated);
+//   * VerifC11MemSize   runs ONE memorySize function of the live table.
+//
+// Nothing here is compiled into a normal build.
+package vm
+
+import (
+	"math/big"
+	"reflect"
+	"runtime"
+	"strings"
+
+	"github.com/holiman/uint256"
+)
+
+// VerifC11Op describes one slot of the jump table as the interpreter sees it.
+type VerifC11Op struct {
+	Op          byte
+	Defined     bool
+	Mnemonic    string
+	Exec        string // name of the execute function (closures: "makePush.func1")
+	ConstantGas uint64
+	MinStack    int
+	MaxStack    int
+	MemorySize  string // name of the memorySize function, "" if nil
+	DynamicGas  string // name of the dynamicGas function, "" if nil
+	Halts       bool
+	Jumps       bool
+	Writes      bool
+	Reverts     bool
+	Returns     bool
+	// Probes of closure-made functions (parameters invisible to reflection):
+	//   makePush.func1: P1 = pc advance, P2 = pushed byte count
+	//   makeDup.func1 : P1 = n;  makeSwap.func1: P1 = n
+	//   makeLog.func1 : P1 = number of topics (minStack-2)
+	P1, P2 int
+	// memoryCopierGas.func1: stack position of the length operand, else -1
+	// makeGasLog.func1     : number of topics priced
+	DynP int
+}
+
+func verifC11FuncName(f interface{}) string {
+	v := reflect.ValueOf(f)
+	if v.IsNil() {
+		return ""
+	}
+	n := runtime.FuncForPC(v.Pointer()).Name()
+	if i := strings.LastIndex(n, "/vm."); i >= 0 {
+		n = n[i+4:]
+	}
+	// closures made by a (possibly inlined) maker function are named e.g.
+	// "newInstructionSet.makePush.func7": canonicalise to "<maker>.func1"
+	for _, maker := range []string{"makePush", "makeDup", "makeSwap", "makeLog", "memoryCopierGas", "makeGasLog"} {
+		if strings.Contains(n, maker+".") {
+			return maker + ".func1"
+		}
+	}
+	return n
+}
+
+func verifC11Interp(height uint64) (*EVM, *EVMInterpreter) {
+	evm := &EVM{Context: Context{BlockNumber: new(big.Int).SetUint64(height)}}
+	return evm, NewEVMInterpreter(evm)
+}
+
+// VerifC11Table returns the jump table NewEVMInterpreter builds for an EVM whose
+// BlockNumber is height (fork gates read common.LocalChainConfig).
+func VerifC11Table(height uint64) [256]VerifC11Op {
+	evm, in := verifC11Interp(height)
+	var out [256]VerifC11Op
+	for i := 0; i < 256; i++ {
+		o := in.jumpTable[i]
+		info := VerifC11Op{Op: byte(i), Mnemonic: OpCode(i).String(), DynP: -1}
+		if o == nil {
+			out[i] = info
+			continue
+		}
+		info.Defined = true
+		info.Exec = verifC11FuncName(o.execute)
+		info.ConstantGas = o.constantGas
+		info.MinStack = o.minStack
+		info.MaxStack = o.maxStack
+		info.MemorySize = verifC11FuncName(o.memorySize)
+		info.DynamicGas = verifC11FuncName(o.dynamicGas)
+		info.Halts, info.Jumps, info.Writes, info.Reverts, info.Returns = o.halts, o.jumps, o.writes, o.reverts, o.returns
+		switch info.Exec {
+		case "makePush.func1":
+			code := make([]byte, 80)
+			for k := range code {
+				code[k] = byte(k + 1)
+			}
+			st := &Stack{}
+			ctx := &callCtx{stack: st, memory: NewMemory(), contract: &Contract{Code: code}}
+			pc := uint64(0)
+			o.execute(&pc, in, ctx)
+			info.P1 = int(pc)
+			info.P2 = st.peek().ByteLen()
+		case "makeDup.func1", "makeSwap.func1":
+			st := &Stack{}
+			for k := 1; k <= 17; k++ {
+				st.push(new(uint256.Int).SetUint64(uint64(k)))
+			}
+			ctx := &callCtx{stack: st, memory: NewMemory(), contract: &Contract{}}
+			pc := uint64(0)
+			o.execute(&pc, in, ctx)
+			top := int(st.peek().Uint64())
+			if info.Exec == "makeDup.func1" {
+				info.P1 = 17 - top + 1
+			} else {
+				info.P1 = 17 - top
+			}
+			info.P2 = st.len() - 17
+		case "makeLog.func1":
+			info.P1 = o.minStack - 2
+		}
+		switch info.DynamicGas {
+		case "memoryCopierGas.func1":
+			for pos := 0; pos < 4; pos++ {
+				st := &Stack{}
+				for k := 3; k >= 0; k-- {
+					v := new(uint256.Int)
+					if k == pos {
+						v.SetAllOne()
+					}
+					st.push(v)
+				}
+				if _, err := o.dynamicGas(evm, &Contract{}, st, NewMemory(), 0); err != nil {
+					info.DynP = pos
+					break
+				}
+			}
+		case "makeGasLog.func1":
+			st := &Stack{}
+			st.push(new(uint256.Int))
+			st.push(new(uint256.Int))
+			g0, _ := in.jumpTable[LOG0].dynamicGas(evm, &Contract{}, st, NewMemory(), 0)
+			g, _ := o.dynamicGas(evm, &Contract{}, st, NewMemory(), 0)
+			if g0 > 0 {
+				// g = (LogGas + n*LogTopicGas) * m, g0 = LogGas * m
+				info.DynP = int((g - g0) / (g0 / LogGas) / LogTopicGas)
+			}
+		}
+		out[i] = info
+	}
+	return out
+}
+
+// VerifC11MemSize runs the memorySize function of opcode op (live table at height)
+// on the given stack (stack[0] is the TOP of the stack). defined=false if the slot
+// is empty or has no memorySize function.
+func VerifC11MemSize(height uint64, op byte, stack []uint256.Int) (size uint64, overflow bool, defined bool) {
+	_, in := verifC11Interp(height)
+	o := in.jumpTable[op]
+	if o == nil || o.memorySize == nil {
+		return 0, false, false
+	}
+	st := &Stack{}
+	for i := len(stack) - 1; i >= 0; i-- {
+		st.push(&stack[i])
+	}
+	size, overflow = o.memorySize(st)
+	return size, overflow, true
+}
+
+// VerifC11DynGas prices opcode op exactly as EVMInterpreter.Run does up to (and not
+// including) mem.Resize / execute: memorySize, word rounding, dynamicGas. The memory
+// is a fresh one of memLen zero bytes whose lastGasCost is lastGasCost; the contract
+// holds contractGas. stack[0] is the TOP of the stack. Only state-independent gas
+// functions may be probed (evm.StateDB is nil).
+// Result: status "ok" (gas = dynamic cost, memSize = word-rounded size the
+// interpreter would Resize to), "overflow" (ErrGasUintOverflow from the size
+// computation), "err" (the gas function returned an error), "undefined".
+func VerifC11DynGas(height uint64, op byte, stack []uint256.Int, memLen uint64, lastGasCost uint64, contractGas uint64) (status string, gas uint64, memSize uint64) {
+	evm, in := verifC11Interp(height)
+	o := in.jumpTable[op]
+	if o == nil {
+		return "undefined", 0, 0
+	}
+	st := &Stack{}
+	for i := len(stack) - 1; i >= 0; i-- {
+		st.push(&stack[i])
+	}
+	if o.memorySize != nil {
+		ms, overflow := o.memorySize(st)
+		if overflow {
+			return "overflow", 0, 0
+		}
+		w := toWordSize(ms)
+		if w > (^uint64(0))/32 {
+			return "overflow", 0, 0
+		}
+		memSize = w * 32
+	}
+	if o.dynamicGas == nil {
+		return "ok", 0, memSize
+	}
+	mem := NewMemory()
+	mem.store = make([]byte, memLen)
+	mem.lastGasCost = lastGasCost
+	g, err := o.dynamicGas(evm, &Contract{Gas: contractGas}, st, mem, memSize)
+	if err != nil {
+		return "err", 0, memSize
+	}
+	return "ok", g, memSize
+}
